@@ -449,6 +449,45 @@ def run(ctx):
     ctx.instance("C18.typed-lookups", "get_group_by_tag[first match in list order]", ok,
                  "get_group_by_tag() no longer scans the items in index order returning the first match", loc(gt))
 
+    # ... and an item that does not carry the inner tag is passed over, not an error: a raising read of the item (`item.get(t)` without a
+    # default, `item[t]`) inside the scan stands under the membership test on that item, or inside a `try` that catches the lookup error
+    if len(loops) == 1 and isinstance(tg_, ast.Name):
+        from sa.cfg import CFG as _CFG
+        gtg = _CFG(gt)
+        for n_ in gtg.nodes:
+            if n_.ast is None or n_.kind not in ("stmt", "test"):
+                continue
+            for x in walk_no_nested(n_.ast):
+                raising = None
+                if isinstance(x, ast.Call) and isinstance(x.func, ast.Attribute) and x.func.attr == "get" and unparse(x.func.value) == item \
+                        and len(x.args) == 1 and not x.keywords:
+                    raising = x.args[0]
+                elif isinstance(x, ast.Subscript) and unparse(x.value) == item and isinstance(x.ctx, ast.Load):
+                    raising = x.slice
+                if raising is None:
+                    continue
+                key = unparse(raising)
+                fs_ = set()
+                for t_, lab_ in gtg.guards(n_.id, exc=False):
+                    fs_ |= facts(t_, lab_ == "true")
+                # (within one test `a in item and item.get(a) == v` the left conjunct guards the right one)
+                same_test = False
+                if n_.kind == "test" and isinstance(n_.ast, ast.BoolOp) and isinstance(n_.ast.op, ast.And):
+                    for i_, v_ in enumerate(n_.ast.values):
+                        if any(y is x for y in ast.walk(v_)):
+                            same_test = any(unparse(w_) in (f"{key} in {item}", f"str({key}) in {item}.tags") for w_ in n_.ast.values[:i_])
+                guarded = same_test or any(tv and a in (f"{key} in {item}", f"str({key}) in {item}.tags") for a, tv in fs_) \
+                    or any(not tv and a in (f"{key} not in {item}",) for a, tv in fs_)
+                in_try = False
+                p_ = getattr(x, "_parent", None)
+                while p_ is not None and p_ is not gt:
+                    if isinstance(p_, ast.Try) and any(h.type is None or "TagNotFoundError" in unparse(h.type) or "FIXMessageError" in unparse(h.type)
+                                                       or unparse(h.type) in ("Exception", "KeyError") for h in p_.handlers):
+                        in_try = True
+                    p_ = getattr(p_, "_parent", None)
+                ctx.instance("C18.typed-lookups", f"get_group_by_tag[items without the inner tag are passed over: {short(x, 30)}]", guarded or in_try,
+                             f"`{short(x)}` raises for an item that does not carry `{key}` and is not guarded by `{key} in {item}`: the scan ends with "
+                             "TagNotFoundError at the first such item although a later item matches", loc(x))
     # presence of a tag is decided by identity / membership, never by the truthiness of the stored value ("" is a legal value)
     n_tr = 0
     for q, f in sorted(repo.functions.items()):
